@@ -454,6 +454,14 @@ ResetOp ==
     /\ Step([op |-> "reset"], Fresh, "na")
     /\ UNCHANGED <<nmsg, nlist, nodes, built, rootTree, done>>
 
+\* Reset reached through a message handle (MessageWriter.Unwrap().Reset): a live handle leads to the writer itself; an ended
+\* handle leads to the shared placeholder of ended handles, which stays closed whatever is called on it
+ResetViaOp(h) ==
+    /\ Budget /\ Misuse
+    /\ IF nmsg[h] THEN DeadCall([op |-> "reset_via", h |-> h])
+       ELSE /\ Step([op |-> "reset_via", h |-> h], Fresh, "na")
+            /\ UNCHANGED <<nmsg, nlist, nodes, built, rootTree, done>>
+
 \* Free: close, then release the state; ALWAYS safe (C12)
 FreeOp ==
     /\ Budget /\ Misuse
@@ -538,6 +546,7 @@ Next ==
                                 \/ HasFieldOp(h, t)
          \/ \E s \in {s \in Srcs : Val(s).k = "msg"} : CopyOp(h, s)
          \/ MsgEnd_(h, TRUE) \/ (Misuse /\ MsgEnd_(h, FALSE))
+         \/ ResetViaOp(h)
     \/ \E l \in ListHandles :
          \/ \E d \in Descs : ElemScalar(l, d)
          \/ \E s \in Srcs : ElemAnyOp(l, s)
@@ -550,7 +559,7 @@ Spec == Init /\ [][Next]_vars
 
 \* ------------------------------------------------------------- properties
 \* C12: the first error is sticky ("closed" may only be left through Reset)
-IsReset == hist' # hist /\ hist'[Len(hist')].op = "reset"
+IsReset == hist' # hist /\ LET e == hist'[Len(hist')] IN e.op = "reset" \/ (e.op = "reset_via" /\ e.exp.ret # "dead")
 StickyError == [][(m.err # "none" /\ ~IsReset) => m'.err = m.err]_vars
 
 \* C12: a successful root Build returns a well-formed value that parses completely
